@@ -11,7 +11,7 @@ from warnings import warn
 import numpy as np
 import pandas as pd
 from MDAnalysis.lib.pkdtree import PeriodicKDTree
-from pymatgen.core import Structure
+from pymatgen.core import Lattice, Structure
 
 from .caching import weak_lru_cache
 from .metrics import TrajectoryMetrics
@@ -513,8 +513,13 @@ def _calculate_atom_states(
 
     cutoff = max(list(site_radius.values()))
 
+    # The periodic KD-tree derives its own cell vectors from the lattice parameters
+    # (a along x, b in the xy-plane), so the cartesian coordinates passed to it must
+    # be expressed in that orientation, not in the orientation of the input lattice.
+    tree_lattice = Lattice.from_parameters(*lattice.parameters, vesta=True)
+
     traj_frac_coords = trajectory.positions.reshape(-1, 3)
-    traj_cart_coords = lattice.get_cartesian_coords(traj_frac_coords)
+    traj_cart_coords = tree_lattice.get_cartesian_coords(traj_frac_coords)
 
     periodic_tree: PeriodicKDTree = PeriodicKDTree(
         box=np.array(lattice.parameters, dtype=np.float32)
@@ -535,7 +540,7 @@ def _calculate_atom_states(
             frac_coords = sites.frac_coords
             key = None
 
-        cart_coords = lattice.get_cartesian_coords(frac_coords)
+        cart_coords = tree_lattice.get_cartesian_coords(frac_coords)
         site_index = periodic_tree.search_tree(cart_coords, radius * site_inner_fraction)
 
         if site_index.size == 0:
